@@ -685,10 +685,17 @@ def gen_construct(rng, n):
     ops = ["segment", "polygon", "tangent", "pair", "circle_segment", "circle_geodesic", "circle_polygon", "horosphere",
            "fixed_points", "sl2", "ideal_endpoints", "tangent_ops", "dtype_mix", "derived_then_original",
            "mixed_isometries", "special_positions", "options", "far_points", "error_paths"]
+    ops += ["mixed_kinds", "hyperplane_family", "mixed_kinds", "hyperplane_family"]
     for c in range(n):
         op = ops[c % len(ops)]
-        yield {"op": op, "shape": rng.choice(SHAPES), "n": 2 if op.startswith("circle") or op in ("sl2", "fixed_points") else rng.choice([2, 3]),
-               "seed": rng.randrange(10 ** 9), "model": rng.choice(["poincare", "halfspace"])}
+        dim = 2 if op.startswith("circle") or op in ("sl2", "fixed_points") else rng.choice([2, 3])
+        shape = rng.choice(SHAPES)
+        if op in ("mixed_kinds", "hyperplane_family"):
+            dim = rng.choice([2, 2, 3, 4])
+        if op in ("mixed_kinds", "hyperplane_family") or rng.random() < 0.3:
+            # G16: the (n, n) ambiguity -- composites whose LAST axis has exactly dim+1 members, and square (m, m) tables
+            shape = rng.choice([[dim + 1], [2, dim + 1], [dim + 1, dim + 1], [dim, dim], [1, dim + 1], [dim + 1, 1], [dim + 1, dim], [2], [dim + 2]])
+        yield {"op": op, "shape": shape, "n": dim, "seed": rng.randrange(10 ** 9), "model": rng.choice(["poincare", "halfspace"])}
 
 
 def _cmp_tuple(bad, what, comp, unit, idx, tol=1e-6):
@@ -1065,6 +1072,172 @@ def run_construct(inp):
             bad.append({"what": "point_outside_chart_does_not_raise"})
         if raises(lambda: H.Point(np.array([1e-300] + [1.0] * n)).coords("klein"), Exception):
             bad.append({"what": "borderline_valid_point_raises"})
+    elif op == "mixed_kinds":
+        # G16: one composite whose members are of different kinds -- ordinary ones, one exactly through the point at infinity of the half-space model
+        # (Klein (1, 0, .., 0)), one exactly through the centre of the ball -- in BOTH models: member i of the composite answer = the single-object answer
+        cnt = int(np.prod(shape)) if len(shape) else 1
+        kind = ["geodesic", "segment", "subspace", "horosphere", "point"][int(g.integers(0, 5))]
+        e1 = np.zeros(n)
+        e1[0] = 1.0
+        A, B, kinds = np.zeros((cnt, n)), np.zeros((cnt, n)), []
+        order = g.permutation(np.array(["ordinary", "infinity", "ordinary", "centre"]))
+        for r in range(cnt):
+            kk = str(order[r % 4]) if cnt >= 2 else "ordinary"
+            while True:
+                a, b = ideal(g, (), n, exact=0.0), ideal(g, (), n, exact=0.0)
+                if np.linalg.norm(a - b) > 0.4 and np.linalg.norm(a + b) > 0.4 and a[0] < 0.8 and b[0] < 0.8:
+                    break
+            if kind in ("segment", "point"):
+                t1, t2 = g.uniform(0.1, 0.45), g.uniform(0.55, 0.9)
+                a, b = t1 * b + (1 - t1) * a, t2 * b + (1 - t2) * a              # interior points of the chord
+                if kk == "infinity" and kind == "point":
+                    a = e1.copy()
+                elif kk == "centre":
+                    a = np.zeros(n)
+                elif kk != "ordinary":
+                    kk = "ordinary"
+            elif kk == "infinity":
+                a, b = (e1.copy(), b) if g.random() < 0.5 else (a, e1.copy())
+                if kind == "horosphere":
+                    a = e1.copy()
+            elif kk == "centre" and kind != "horosphere":
+                b = -a                                                             # a diameter of the ball
+            else:
+                kk = "ordinary"
+            A[r], B[r] = a, b
+            kinds.append(kk)
+        A, B = A.reshape(shape + (n,)), B.reshape(shape + (n,))
+
+        def build(a, b):
+            pa, pb = H.Point(np.array(a), model="klein"), H.Point(np.array(b), model="klein")
+            if kind == "geodesic":
+                return H.Geodesic(H.IdealPoint(pa), H.IdealPoint(pb))
+            if kind == "segment":
+                return H.Segment(pa, pb)
+            if kind == "subspace":
+                return H.Subspace(np.stack([pa.proj_data, pb.proj_data], axis=-2))
+            if kind == "horosphere":
+                return H.Horosphere(H.IdealPoint(pa), H.Point(0.5 * np.array(b), model="klein"))
+            return pa
+
+        def answers(o):
+            out = []
+            with np.errstate(all="ignore"):
+                for m in ("poincare", "halfspace"):
+                    if kind == "point":
+                        out.append(("coords(%s)" % m, np.array(o.coords(m), dtype=float), 1))
+                        continue
+                    c, r = o.sphere_parameters(model=m)
+                    out += [("sphere_parameters(%s)[0]" % m, np.array(c, dtype=float), 1), ("sphere_parameters(%s)[1]" % m, np.array(r, dtype=float), 0)]
+                    if kind in ("geodesic", "subspace"):
+                        out.append(("ideal_basis_coords(%s)" % m, np.array(o.ideal_basis_coords(m), dtype=float), 2))
+                    if kind in ("geodesic", "segment"):
+                        out.append(("endpoint_coords(%s)" % m, np.array(o.endpoint_coords(m), dtype=float), 2))
+                        if n == 2:
+                            c2, r2, th = o.circle_parameters(model=m, degrees=False)
+                            th = np.array(th, dtype=float)
+                            out += [("circle_parameters(%s)[0]" % m, np.array(c2, dtype=float), 1), ("circle_parameters(%s)[1]" % m, np.array(r2, dtype=float), 0),
+                                    ("circle_parameters(%s)[2]:cos" % m, np.cos(th), 1), ("circle_parameters(%s)[2]:sin" % m, np.sin(th), 1)]
+                    if kind == "horosphere":
+                        out.append(("center_coords(%s)" % m, np.array(o.center_coords(m), dtype=float), 1))
+            return out
+
+        def tryq(a, b):
+            try:
+                return answers(build(a, b))
+            except Exception as e:
+                return type(e).__name__
+
+        comp = tryq(A, B)
+        if isinstance(comp, str):
+            if not any(isinstance(tryq(A[idx], B[idx]), str) for idx in np.ndindex(*shape)):
+                bad.append({"what": "mixed_kinds_composite_raises", "kind": kind, "members": kinds, "exc": comp,
+                            "expected": "no member raises on its own, so the composite must not raise"})
+            return {"bad": bad}
+        for r, idx in enumerate(np.ndindex(*shape)):
+            unit = tryq(A[idx], B[idx])
+            if isinstance(unit, str):
+                continue                      # this member is refused on its own: nothing is defined for it
+            for (name, cv, urank), (_, uv, _) in zip(comp, unit):
+                if cv.shape[:len(shape)] != shape or cv.shape[len(shape):] != uv.shape:
+                    bad.append({"what": "mixed_kinds_shape", "query": name, "kind": kind, "got": list(cv.shape), "unit": list(uv.shape), "members": kinds})
+                    return {"bad": bad}
+                a_, b_ = cv[idx], uv
+                fa, fb = np.isfinite(a_), np.isfinite(b_)
+                if not np.array_equal(fa, fb) or (fa.any() and not np.all(np.abs(a_[fa] - b_[fb]) <= 1e-7 * (1 + np.abs(b_[fb])))):
+                    bad.append({"what": "mixed_kinds", "query": name, "kind": kind, "idx": list(idx), "member": kinds[r], "members": kinds,
+                                "composite": np.asarray(a_).tolist(), "single": np.asarray(b_).tolist(),
+                                "expected": "member i of the composite answer = the single-object answer for member i (finite exactly where that is finite)"})
+                    return {"bad": bad}
+    elif op == "hyperplane_family":
+        # the vectorised constructors and queries of the hyperplane / reflection family on composites, in particular with exactly dim+1 members in the
+        # last axis (where an array of normals has the shape (.., n, n) of ONE hyperplane's full data) and square tables: composite = per unit
+        nrm = g.normal(size=shape + (n + 1,))
+        nrm[..., 0] = 0.5 * np.linalg.norm(nrm[..., 1:], axis=-1) * g.uniform(-1, 1, shape)          # spacelike normals
+        J = np.diag([-1.0] + [1.0] * n)
+
+        def fam(v):
+            """every way of getting the same composite of hyperplanes, and what is derived from it"""
+            Hp = H.Hyperplane(np.array(v), normals_only=True)
+            R = Hp.reflection_across()
+            out = {"Hyperplane(normals, normals_only=True)": Hp, "Hyperplane.from_reflection(reflections)": H.Hyperplane.from_reflection(R),
+                   "Hyperplane.from_reflection(matrices)": H.Hyperplane.from_reflection(np.array(R.proj_data)),
+                   "Hyperplane(Hyperplane)": H.Hyperplane(Hp), "Hyperplane(full data)": H.Hyperplane(np.array(Hp.proj_data)),
+                   "Hyperplane(DualPoint)": H.Hyperplane(H.DualPoint(np.array(v)), normals_only=True)}
+            if n == 2:
+                out["Geodesic.from_reflection(reflections)"] = H.Geodesic.from_reflection(R)
+            return out, R
+
+        comp, R = fam(nrm)
+        if tuple(R.shape) != shape:
+            bad.append({"what": "reflection_across_shape", "got": list(R.shape), "expected": list(shape)})
+        for name, C in comp.items():
+            if bad:
+                break
+            if tuple(C.shape) != shape:
+                bad.append({"what": "hyperplane_family_shape", "constructor": name, "got": list(C.shape), "expected": list(shape),
+                            "expected_text": "one hyperplane per member of the composite it was built from"})
+                break
+            for idx in np.ndindex(*shape):
+                v = nrm[idx]
+                if isinstance(C, H.Hyperplane):
+                    sv, ib = np.array(C.spacelike_vector)[idx], np.array(C.ideal_basis)[idx]
+                    ok = rows_proj_eq(sv, v, 1e-7) and ib.shape == (n, n + 1) and np.abs(ib @ J @ v).max() <= 1e-7 * (1 + np.abs(ib).max()) * np.abs(v).max() \
+                        and np.abs(np.einsum("ki,ij,kj->k", ib, J, ib)).max() <= 1e-7 * (1 + np.abs(ib).max() ** 2) and np.linalg.matrix_rank(ib, tol=1e-7) == n
+                else:
+                    ib = np.array(C.proj_data)[idx]
+                    ok = ib.shape == (2, n + 1) and np.abs(ib @ J @ v).max() <= 1e-7 * (1 + np.abs(ib).max()) * np.abs(v).max() and np.linalg.matrix_rank(ib, tol=1e-7) == 2
+                if not ok:
+                    bad.append({"what": "hyperplane_family_unit", "constructor": name, "idx": list(idx),
+                                "expected": "member idx is the hyperplane with the idx-th normal: that normal, and n independent lightlike vectors orthogonal to it"})
+                    break
+        if not bad:
+            Rm = np.array(R.proj_data)
+            for idx in np.ndindex(*shape):
+                v = nrm[idx]
+                want = np.identity(n + 1) - 2 * np.outer(J @ v, v) / (v @ J @ v)          # row convention: x -> x - 2<x,v>/<v,v> v
+                U = H.Hyperplane(np.array(v)).reflection_across()
+                if not (mats_proj_eq(Rm[idx], want, 1e-7) and mats_proj_eq(np.array(U.proj_data), want, 1e-7)):
+                    bad.append({"what": "reflection_across_unit", "idx": list(idx), "expected": "member idx = the reflection in the idx-th normal"})
+                    break
+        if not bad:
+            Hp = comp["Hyperplane(normals, normals_only=True)"]
+            queries = [("spacelike_complement", lambda o: o.spacelike_complement().proj_data, "proj")] + \
+                      [("sphere_parameters(%s)[%d]" % (m, k), (lambda o, m=m, k=k: o.sphere_parameters(model=m)[k]), "val") for m in ("poincare", "halfspace") for k in (0, 1)] + \
+                      [("ideal_basis_coords(%s)" % m, (lambda o, m=m: o.ideal_basis_coords(m)), "val") for m in ("klein", "poincare")]
+            for name, f, how in queries:
+                with np.errstate(all="ignore"):
+                    cv = np.array(f(fresh(Hp)), dtype=float)
+                for idx in np.ndindex(*shape):
+                    with np.errstate(all="ignore"):
+                        uv = np.array(f(H.Hyperplane(np.array(Hp.proj_data[idx]))), dtype=float)
+                    ok = cv.shape[:len(shape)] == shape and cv[idx].shape == uv.shape and \
+                        (rows_proj_eq(cv[idx], uv, 1e-7) if how == "proj" else same_val(cv[idx], uv, 1e-6))
+                    if not ok:
+                        bad.append({"what": "hyperplane_query", "query": name, "idx": list(idx), "expected": "entry of the composite answer = the answer of the unit"})
+                        break
+                if bad:
+                    break
     elif op == "sl2":
         A = g.normal(size=shape + (2, 2))
         det = A[..., 0, 0] * A[..., 1, 1] - A[..., 0, 1] * A[..., 1, 0]
@@ -1214,10 +1387,14 @@ def c04_oracles():
                budget={"quick": 330, "thorough": 6000},
                what="T.apply(X, elementwise|pairwise|pairwise_reversed) for all 11 object kinds (real; complex for projective classes): type, composite shape law, "
                     "and result[idx] (primary and derived data) = transformation unit applied to object unit; pairwise entry [i][j] = transformation j on unit i"),
-        Clause("vectorised_per_unit", "oracle", gen_construct, run_construct, judge_bad, site="hyperbolic.Segment/Polygon/TangentVector/circle_parameters/_fixpoint_data, lie.sl2_*",
+        Clause("vectorised_per_unit", "oracle", gen_construct, run_construct, judge_bad, site="hyperbolic.Segment/Polygon/TangentVector/Hyperplane/circle_parameters/sphere_parameters/fixed points, lie.sl2_*",
                budget={"quick": 240, "thorough": 4000},
                what="Segment/PointPair/Polygon/TangentVector construction, ideal endpoints, normalized/angle/origin_to/point_along, circle_parameters (segment, geodesic, polygon; "
-                    "Poincare and half-space), horosphere sphere_parameters, fixed points/axis, vectorised sl2 maps: composite = per-unit loop"),
+                    "Poincare and half-space), horosphere sphere_parameters, fixed points/axis, vectorised sl2 maps: composite = per-unit loop; "
+                    "mixed_kinds: composites of geodesics / segments / subspaces / horospheres / points mixing ordinary members with one exactly through the half-space point at "
+                    "infinity and one exactly through the centre of the ball, sphere/circle parameters, ideal-basis, endpoint and point coordinates in BOTH models, member = single object "
+                    "(finite exactly where the single answer is finite); hyperplane_family: Hyperplane(normals_only) / from_reflection (objects and matrices) / Geodesic.from_reflection / "
+                    "reflection_across / copies, and their queries, per unit; every op also on composites whose last axis has exactly dim+1 members and on square (m,m) tables"),
         Clause("structure_units", "oracle", gen_struct, run_struct, judge_bad, site="projective.ProjectiveObject.flatten_to_unit/reshape/__getitem__/__len__/_construct_from_object",
                budget={"quick": 220, "thorough": 4000},
                what="flatten_to_unit, reshape, len, iteration, integer/tuple indexing, stacking Cls([items]) preserve units (primary and derived data) and row-major order, all 11 kinds"),
